@@ -98,7 +98,15 @@ fn sc_order(prop: &str) -> LevelCfg {
 
 /// SC-zero: zero displays, zero replenish amounts
 fn sc_zero(prop: &str) -> LevelCfg {
-    let ts = [Tmpl::S0, Tmpl::S3, Tmpl::IC02, Tmpl::IC23, Tmpl::RS0, Tmpl::RSa];
+    let ts = [
+        Tmpl::S0,
+        Tmpl::S3,
+        Tmpl::IC02,
+        Tmpl::IC23,
+        Tmpl::RS0,
+        Tmpl::RSa,
+        Tmpl::RSh,
+    ];
     let mut c = base_cfg(prop, "SC-zero", LEVEL_PRICE, tmpl_named(&ts, LEVEL_PRICE));
     c.ops = adds(&[1, 2], ts.len());
     c.ops.extend(upds(
@@ -290,7 +298,15 @@ pub fn plans(prop: &str, tier: &str) -> Vec<Plan> {
             x.check.c04 = true;
             x.check.drain = true;
             x.variants = vec![(false, false), (true, false), (false, true), (true, true)];
+            // orders that display nothing (display amended to 0, replenish amount 0): a match that walks over
+            // them must not change their place
+            let mut zz = sc_zero(prop);
+            zz.check.c04 = true;
+            zz.check.drain = true;
+            zz.variants = vec![(false, false), (true, false), (false, true), (true, true)];
+            let plan_zz = Plan { cfg: zz, depth: d(5, 8) };
             vec![
+                plan_zz,
                 Plan { cfg: o, depth: d(6, 8) },
                 Plan { cfg: a, depth: d(5, 7) },
                 Plan { cfg: x, depth: d(6, 8) },
